@@ -24,6 +24,7 @@ import numpy as np
 from pybound import circ as C
 from bqskit.ir.circuit import Circuit
 from bqskit.ir.gate import Gate
+from bqskit.ir.gates import CircuitGate
 from bqskit.ir.gates import CNOTGate
 from bqskit.ir.gates import ConstantUnitaryGate
 from bqskit.ir.gates import CRYGate
@@ -119,6 +120,28 @@ def circuits(rng: random.Random) -> list[tuple[str, Circuit]]:
     c.append_gate(ConstantUnitaryGate(UnitaryMatrix(perm, [2, 3])), (0, 1))
     c.append_gate(U8Gate(), 1)
     out.append(('mixed radix (2,3)', c))
+    # blocks: parameterised gates followed by constant ones, a parameter in
+    # the middle, a constant block, a block inside a block
+    b1 = Circuit(2)
+    b1.append_gate(U3Gate(), 0)
+    b1.append_gate(U3Gate(), 1)
+    b1.append_gate(CNOTGate(), (0, 1))
+    b2 = Circuit(2)
+    b2.append_gate(HGate(), 1)
+    b2.append_gate(RZGate(), 0)
+    b2.append_gate(CNOTGate(), (1, 0))
+    b2.append_gate(HGate(), 0)
+    b3 = Circuit(1)
+    b3.append_gate(HGate(), 0)
+    b4 = Circuit(2)
+    b4.append_gate(CircuitGate(b1), (1, 0))
+    b4.append_gate(HGate(), 1)
+    c = Circuit(3)
+    c.append_gate(CircuitGate(b1), (0, 1))
+    c.append_gate(CircuitGate(b3), 2)
+    c.append_gate(CircuitGate(b2), (2, 1))
+    c.append_gate(CircuitGate(b4), (0, 2))
+    out.append(('blocks ending in constant gates', c))
     return out
 
 
